@@ -34,6 +34,12 @@ CHECKS = {
     text="For every repository schema/WSDL that reads and hand-written sets that hit every emitter, the number N of write calls is counted and a fault is injected at every call index (stride-sampled only for documents above 20000 calls in the quick tier; thorough enumerates all). write_xml must return an I/O error, never Ok, never panic; Interrupted must be retried transparently; short-writing sinks must receive byte-identical output.",
     note="Trusted: std::io::Write::write_all semantics; the corpus is what the repository ships plus the mini sets (a writer reached only by other inputs is not exercised).",
     design="DESIGN.md section 4 C15"),
+ "C17": dict(
+    category="exploration",
+    technique="property-based scenario testing of the built zeep binary in sandbox directories (generated input sets, damage, cwd, path spelling, output option, pre-existing output, uncreatable targets, file creation order) with a differential oracle against the library's bytes and a before/after comparison of the output file",
+    text="Hundreds of generated CLI scenarios are executed against the zeep binary built from the current tree. Exit 0 requires the output file to equal the library's bytes for the same contents with no stale tail; a non-zero exit requires the pre-existing output to be byte-identical; inputs the library accepts must succeed under every path spelling and working directory. Failures are shrunk to a minimal scenario.",
+    note="Trusted: in-process library bytes as reference (C12 holds on this tree). Run as root: permission-based failures are replaced by uncreatable targets and a non-UTF-8 sibling. A file created where none existed before a failing run is not judged (the statement speaks of pre-existing output).",
+    design="DESIGN.md section 4 C17"),
  "C19": dict(
     category="exploration",
     technique="property-based testing with a bare-twin oracle: proptest values of hand-written yaserde probe types, bare vs MultiRef-wrapped, compared on bytes, Debug, restriction verdicts and Arc sharing",
